@@ -97,7 +97,7 @@ RULE = ("cases = (forced last operation, case seed); the seed determines element
 ASSUMPTIONS = ["CPython builtins / itertools / functools.reduce / fractions as the reference",
                "dask.delayed builds the partitions the harness wrote",
                "the operator library used in folds is associative with identity initials (checked by construction)"]
-BUDGET = {"quick": 35, "thorough": 540}
+BUDGET = {"quick": 45, "thorough": 540}
 # floors: ~45 % of the counts measured on the unchanged tree for the full quick stream (9000 cases, seeds 0-2, 7, 12345);
 # the thorough stream is 150000 cases of the same mixture (x16.7), floored at x15 of the quick floors
 _QUICK_COUNTERS = {
